@@ -443,6 +443,38 @@ def run_lazy(hist, env, stats):
             elif op[0] == "dirty":
                 const.dirty()
                 m_refresh = 0
+            elif op[0] == "race":
+                # dirty() issued by a sibling task while the refresh is suspended on its batch item (or, when the
+                # value is still fresh, right after the call returned it): the NEXT call must recompute
+                env.block = True
+                env.fail_next = False
+                n = len(env.execs)
+                must = (m_refresh == 0) or (ttl != 0 and m_refresh < env.now - ttl)
+                seen = []
+
+                @A()
+                def dirtier():
+                    seen.append(len(env.execs) - n)
+                    const.dirty()
+
+                @A()
+                def racer():
+                    return (yield const.asynq(), dirtier.asynq())
+
+                out = racer()[0]
+                ran = len(env.execs) - n
+                stats["dirty_while_refresh_in_flight"] = stats.get("dirty_while_refresh_in_flight", 0) + (1 if must and seen == [1] else 0)
+                if must:
+                    stats["misses"] += 1
+                    if ran != 1 or seen != [1] or out != tokval("const", env.execs[-1][2]):
+                        viol.append(("lazy-constant-race", {"op": op, "executions": ran, "body_started_before_dirty": seen, "observed": repr(out)[:80]}))
+                        break
+                else:
+                    stats["hits"] += 1
+                    if ran != 0 or out != m_val:
+                        viol.append(("lazy-constant-hit", {"op": op, "executions": ran, "expected": m_val, "observed": out, "now": env.now, "refreshed_at": m_refresh, "ttl": ttl}))
+                        break
+                m_refresh = 0  # the dirty() came after the value was read / while it was being computed
             else:
                 env.block = op[1]
                 env.fail_next = op[2]
@@ -498,6 +530,8 @@ def make_history(rnd, kind):
                 ops.append(["tick", rnd.choice([10, 20, 40, 100])])
             elif r < 0.42:
                 ops.append(["dirty"])
+            elif r < 0.52:
+                ops.append(["race"])
             else:
                 ops.append(["call", rnd.random() < 0.3, rnd.random() < 0.12, rnd.random() < 0.5])
         return {"ttl": ttl, "ops": ops}
@@ -573,7 +607,7 @@ def run_unit(unit, progress):
 
 def reach(c, tier):
     out = []
-    for k in ["histories_" + k for k in KINDS] + ["hits", "misses", "evictions", "raises", "spelling_pairs", "gc_checks", "parallel", "recomputes", "gathers", "gathers_with_overlapping_misses_of_one_key"]:
+    for k in ["histories_" + k for k in KINDS] + ["hits", "misses", "evictions", "raises", "spelling_pairs", "gc_checks", "parallel", "recomputes", "gathers", "gathers_with_overlapping_misses_of_one_key", "dirty_while_refresh_in_flight"]:
         if not c.get(k):
             out.append("%s is zero" % k)
     return out
